@@ -121,6 +121,8 @@ func modeC03(thorough bool) {
 				jobs = append(jobs, job{lst: lst, q: base("z1"), hdr: map[string]string{"method": "GET", "hdrcase": hc}},
 					job{lst: lst, q: base("z2"), hdr: map[string]string{"method": "POST", "hdrcase": hc}})
 			}
+			// a POST whose body has no announced length (chunked transfer encoding)
+			jobs = append(jobs, job{lst: lst, q: base("z2"), hdr: map[string]string{"method": "POST", "hdrcase": "asis", "chunked": "1"}})
 		}
 	}
 	// a plain (UDP) upstream whose truncated answer comes late (3.5 s) and whose TCP side then says nothing: two
